@@ -20,7 +20,7 @@ theorem array_allocate_spec (f : FL) (hk : f.kind = .array) (hinv : FLInv f) (tx
                 (∀ q, q ∈ g.freeIds ↔ (q ∈ f.freeIds ∧ ¬ (id ≤ q ∧ q < id + n))) ∧
                 (∀ s, s < id → ¬ RunFree f s n)) ∧
       (id = 0 → g = f ∧ (n = 0 ∨ ∀ s, ¬ RunFree f s n)) := by
-  sorry
+  exact array_allocate_spec' hk hinv txid n c
 
 /-- **Allocate (hashmap backend)**, for *every* span the Go map iteration may pick
     (`choice`): same contract, except that the run need not be the lowest one. -/
@@ -30,18 +30,30 @@ theorem hm_allocate_spec (f : FL) (hk : f.kind = .hashmap) (hinv : FLInv f) (txi
       (id ≠ 0 → 0 < n ∧ 2 ≤ id ∧ RunFree f id n ∧
                 (∀ q, q ∈ g.freeIds ↔ (q ∈ f.freeIds ∧ ¬ (id ≤ q ∧ q < id + n)))) ∧
       (id = 0 → g = f ∧ (n = 0 ∨ ∀ s, ¬ RunFree f s n)) := by
-  sorry
+  exact hm_allocate_spec' hk hinv h
 
 /-- The hashmap backend can always answer: if a run of `n` free ids exists there is a
     legal non-zero choice, otherwise 0 is the (only) legal answer. -/
 theorem hm_allocate_total (f : FL) (hk : f.kind = .hashmap) (hinv : FLInv f) (txid n : Nat) :
     ∃ c g id, f.allocate txid n c = some (g, id) := by
-  sorry
+  exact hm_allocate_total' hk hinv txid n
 
 /-- Pages 0 and 1 are never handed out (either backend, any legal choice). -/
 theorem never_pages_0_1 (f : FL) (hinv : FLInv f) (txid n c : Nat) (g : FL) (id : Nat)
     (h : f.allocate txid n c = some (g, id)) : id = 0 ∨ 2 ≤ id := by
-  sorry
+  cases hk : f.kind with
+  | array =>
+    obtain ⟨g', id', h', _, _, h1, _⟩ := array_allocate_spec' hk hinv txid n c
+    rw [h] at h'
+    cases h'
+    by_cases h0 : id = 0
+    · exact Or.inl h0
+    · exact Or.inr (h1 h0).2.1
+  | hashmap =>
+    obtain ⟨_, _, h1, _⟩ := hm_allocate_spec' hk hinv h
+    by_cases h0 : id = 0
+    · exact Or.inl h0
+    · exact Or.inr (h1 h0).2.1
 
 /-! ## Free -/
 
@@ -52,19 +64,65 @@ theorem free_spec (f : FL) (hinv : FLInv f) (txid id ov : Nat) (g : FL)
     FLInv g ∧ g.freeIds = f.freeIds ∧ 2 ≤ id ∧
     (∀ q, q ∈ g.pendingIds ↔ (q ∈ f.pendingIds ∨ (id ≤ q ∧ q ≤ id + ov))) ∧
     (∀ q, id ≤ q → q ≤ id + ov → ∃ txp a, (txid, txp) ∈ g.pending ∧ (q, a) ∈ txp.ids) := by
-  sorry
+  obtain ⟨hg, hfree, hperm⟩ := free_inv hinv h
+  obtain ⟨hid, _, hgeq⟩ := free_some h
+  refine ⟨hg, hfree, hid, ?_, ?_⟩
+  · intro q
+    rw [hperm.mem_iff, List.mem_append, mem_expandSpan']
+    constructor
+    · rintro (h1 | h1)
+      · exact Or.inl h1
+      · exact Or.inr ⟨h1.1, by fomega⟩
+    · rintro (h1 | h1)
+      · exact Or.inl h1
+      · exact Or.inr ⟨h1.1, by fomega⟩
+  · intro q h1 h2
+    obtain ⟨txp, hmem, hall⟩ := addPending_mem f.pending txid
+      ((expandSpan (id, ov + 1)).map (fun q => (q, (lookupAlloc f.allocs id).getD 0)))
+    refine ⟨txp, (lookupAlloc f.allocs id).getD 0, ?_, ?_⟩
+    · rw [hgeq]; exact hmem
+    · apply hall
+      rw [List.mem_map]
+      exact ⟨q, mem_expandSpan'.mpr ⟨h1, by omega⟩, rfl⟩
 
 /-- A freed page cannot be returned by the next `Allocate` (it is not free). -/
 theorem freed_not_allocatable (f : FL) (hinv : FLInv f) (txid id ov : Nat) (g : FL)
     (h : f.free txid id ov = some g) (t n c : Nat) (g' : FL) (r : Nat)
     (ha : g.allocate t n c = some (g', r)) (hr : r ≠ 0) :
     ∀ q, id ≤ q → q ≤ id + ov → ¬ (r ≤ q ∧ q < r + n) := by
-  sorry
+  obtain ⟨hg, hfree, hperm⟩ := free_inv hinv h
+  intro q h1 h2 hin
+  have hpend : q ∈ g.pendingIds := by
+    rw [hperm.mem_iff, List.mem_append, mem_expandSpan']
+    exact Or.inr ⟨h1, by omega⟩
+  have hrun : RunFree g r n := by
+    cases hk : g.kind with
+    | array =>
+      obtain ⟨g'', r', h', _, _, h3, _⟩ := array_allocate_spec' hk hg t n c
+      rw [ha] at h'
+      cases h'
+      exact (h3 hr).2.2.1
+    | hashmap =>
+      obtain ⟨_, _, h3, _⟩ := hm_allocate_spec' hk hg ha
+      exact (h3 hr).2.2.1
+  exact hg.disjoint q (hrun q hin.1 hin.2) hpend
 
 /-- `Free` refuses (the Go code panics) pages 0/1 and pages already free or pending. -/
 theorem free_rejects (f : FL) (txid id ov : Nat) :
     (id ≤ 1 ∨ ∃ q, id ≤ q ∧ q ≤ id + ov ∧ f.freed q = true) → f.free txid id ov = none := by
-  sorry
+  intro h
+  unfold FL.free
+  split
+  · rfl
+  · rename_i hid
+    rcases h with h | ⟨q, h1, h2, h3⟩
+    · exact absurd h hid
+    · have : ((List.range (ov + 1)).map (id + ·)).any f.freed = true := by
+        rw [List.any_eq_true]
+        refine ⟨q, ?_, h3⟩
+        rw [List.mem_map]
+        exact ⟨q - id, List.mem_range.mpr (by omega), by omega⟩
+      simp only [this, if_true]
 
 /-! ## Release -/
 
@@ -108,31 +166,65 @@ theorem rollback_restores (f : FL) (hinv : FLInv f) (txid : Nat)
     (hg : frees.foldlM (fun (s : FL) (x : Nat × Nat) => s.free txid x.1 x.2) f = some g)
     (g' : FL) (hrb : g.rollback txid = some g') :
     g'.freeIds = f.freeIds ∧ g'.pending = f.pending ∧ FLInv g' := by
-  sorry
+  obtain ⟨h1, h2, h3, h4⟩ := foldlM_free_frame txid frees f g hg
+  obtain ⟨h5, h6, h7, h8⟩ := rollback_frame' hrb
+  have hp : g'.pending = f.pending := by
+    rw [h8, h4, List.filter_eq_self]
+    intro p hp
+    simpa using hnone p hp
+  exact ⟨freeIds_congr (h5.trans h1) (h6.trans h2) (h7.trans h3), hp,
+         hinv.congr (h5.trans h1) (h6.trans h2) (h7.trans h3) hp⟩
 
 /-- Rollback never touches other transactions' pending pages or the free set. -/
 theorem rollback_frame (f : FL) (txid : Nat) (g : FL) (h : f.rollback txid = some g) :
     g.freeIds = f.freeIds ∧ g.pending = f.pending.filter (fun p => p.1 ≠ txid) := by
-  sorry
+  unfold FL.rollback at h
+  split at h
+  · rename_i hnone
+    cases h
+    refine ⟨rfl, ?_⟩
+    rw [List.find?_eq_none] at hnone
+    symm
+    rw [List.filter_eq_self]
+    intro p hp
+    simpa using hnone p hp
+  · split at h
+    · cases h
+    · cases h
+      exact ⟨rfl, rfl⟩
 
 /-! ## Serialisation -/
 
 /-- `Copyall` is the sorted union of free and pending ids. -/
 theorem copyall_spec (f : FL) (hinv : FLInv f) :
     List.Pairwise (· < ·) f.copyall ∧ ∀ q, q ∈ f.copyall ↔ (q ∈ f.freeIds ∨ q ∈ f.pendingIds) := by
-  sorry
+  exact ⟨copyall_sorted hinv, fun q => mem_copyall⟩
 
 /-- **Write then Read** preserves the set of free and pending pages — for every list
     length, in particular beyond 65534 entries (the 0xFFFF count convention) — and gives
     the same free list for the array and the hashmap backend. -/
 theorem write_read (f : FL) (hinv : FLInv f) (k : Kind) :
     ∃ g, (FL.empty k).read f.write.1 f.write.2 = some g ∧ g.freeIds = f.copyall ∧ g.pending = [] := by
-  sorry
+  unfold FL.read
+  rw [pageIds_write, sortNat_of_sorted (sorted_lt_iff.mp (copyall_sorted hinv)).1]
+  obtain ⟨g, h1, h2, h3⟩ := init_freeIds (copyall_sorted hinv) (FL.empty k)
+  exact ⟨g, h1, h2, h3⟩
 
 /-- The page written is never larger than the size `commitFreelist` allocated for it. -/
 theorem estimated_size_sufficient (f : FL) :
     16 + 8 * f.write.2.length ≤ f.estimatedWritePageSize := by
-  sorry
+  have hl := length_copyall f
+  unfold FL.estimatedWritePageSize FL.write
+  simp only []
+  split
+  · simp
+  · split
+    · rename_i h0 h1
+      have : ¬ f.count ≥ 0xFFFF := by omega
+      simp only [this, if_false, hl]; omega
+    · rename_i h0 h1
+      have : f.count ≥ 0xFFFF := by omega
+      simp only [this, if_true, List.length_cons, hl]; omega
 
 /-! ## Backend equivalence -/
 
@@ -141,12 +233,13 @@ theorem estimated_size_sufficient (f : FL) :
 theorem mergeSpans_backends_agree (f : FL) (hinv : FLInv f) (ids : List Nat)
     (hnd : ids.Nodup) (hdisj : ∀ q ∈ ids, q ∉ f.freeIds) (hge : ∀ q ∈ ids, 2 ≤ q) :
     (f.mergeSpans ids).freeIds = mergeSorted f.freeIds (sortNat ids) := by
-  sorry
+  exact mergeSpans_freeIds_eq hinv hnd hdisj hge
 
 /-- `Init` on the same sorted distinct ids yields the same free list in both backends. -/
 theorem init_backends_agree (ids : List Nat) (hs : List.Pairwise (· < ·) ids) (k : Kind) :
     ∃ g, (FL.empty k).init ids = some g ∧ g.freeIds = ids := by
-  sorry
+  obtain ⟨g, h1, h2, _⟩ := init_freeIds hs (FL.empty k)
+  exact ⟨g, h1, h2⟩
 
 /-! ## Non-vacuity -/
 
@@ -154,6 +247,6 @@ theorem init_backends_agree (ids : List Nat) (hs : List.Pairwise (· < ·) ids) 
     vacuous): hashmap backend, two spans, one pending page, one reader. -/
 example : FLInv { kind := .hashmap, ids := [], spans := [(3, 2), (9, 1)], readers := [4],
                   allocs := [(7, 2)], pending := [(5, { ids := [(12, 3)], lastReleaseBegin := 0 })] } := by
-  sorry
+  refine ⟨(by intro h; cases h), fun _ => ⟨(by decide), (by decide)⟩, (by decide), (by decide), (by decide), (by decide)⟩
 
 end Bolt.C09
